@@ -22,7 +22,7 @@ using sim::Workload;
 using sim::Result;
 using sim::Rng;
 
-enum { C_PART = 0, C_QLEN, C_RECYCLE };
+enum { C_PART = 0, C_QLEN, C_RECYCLE, C_ARENAS };
 enum { P_RING_INT = 0, P_RING_TRACKED, P_SV_NORMAL, P_SV_NOINIT_DESTROY, P_SV_NOINIT_NODESTROY, P_N };
 enum {
     R_CONSTRUCT = 0, R_PUSH_BACK, R_PUSH_BACK_MOVE, R_EMPLACE_BACK, R_PUSH_FRONT, R_PUSH_FRONT_MOVE, R_EMPLACE_FRONT,
@@ -35,7 +35,7 @@ const uint32_t RECYCLE[] = {0, 300, 700, 1000};
 void generate(Rng& r, Workload& w, int tier) {
     int part = int(r.below(P_N));
     if (part >= P_SV_NOINIT_DESTROY && r.chance(1, 2)) part = int(r.below(3));
-    w.cfg = {part, int64_t(r.below(5)), int64_t(r.below(4))};
+    w.cfg = {part, int64_t(r.below(5)), int64_t(r.below(4)), int64_t(r.below(2))};
     int n = int(r.range(1, tier ? 90 : 60));
     if (part <= P_RING_TRACKED) {
         for (int i = 0; i < n; ++i) {
@@ -69,6 +69,9 @@ void run_ring(const Workload& w, Result& res) {
     Model m[NS];
     bool present[NS] = {false, false, false};
     const bool tracked = !std::is_same<T, int>::value;
+    const bool arenas = sim::modn(sim::cfg_at(w, C_ARENAS), 2) == 1;   // distinct (unequal) allocator instances per slot
+    auto al = [&](int slot) { return sim::Alloc<T>(arenas ? slot + 1 : 0); };
+    if (arenas) res.probe("distinct_allocator_instances");
     int next_val = 1, step = 0;
     static const char* names[] = {"construct", "push_back", "push_back_move", "emplace_back", "push_front", "push_front_move",
                                   "emplace_front", "pop_front", "pop_back", "clear", "copy_ctor", "copy_assign", "move_ctor",
@@ -82,10 +85,10 @@ void run_ring(const Workload& w, Result& res) {
         auto can_push = [&](int s) { return present[s] && m[s].allocated && m[s].vals.size() < m[s].max_size; };
         switch (code) {
         case R_CONSTRUCT:
-            r[i] = nullptr; r[i] = std::make_unique<RB>(cap);
+            r[i] = nullptr; r[i] = std::make_unique<RB>(cap, al(i));
             m[i] = Model(); m[i].allocated = true; m[i].max_size = cap; present[i] = true; did = true; break;
         case R_DEFAULT_CTOR:
-            r[i] = nullptr; r[i] = std::make_unique<RB>(); m[i] = Model(); present[i] = true; did = true; break;
+            r[i] = nullptr; r[i] = std::make_unique<RB>(al(i)); m[i] = Model(); present[i] = true; did = true; break;
         case R_PUSH_BACK: if (can_push(i)) { T t = make<T>(next_val); r[i]->push_back(t); m[i].vals.push_back(next_val++); did = true; } break;
         case R_PUSH_BACK_MOVE: if (can_push(i)) { r[i]->push_back(make<T>(next_val)); m[i].vals.push_back(next_val++); did = true; } break;
         case R_EMPLACE_BACK: if (can_push(i)) { r[i]->emplace_back(make<T>(next_val)); m[i].vals.push_back(next_val++); did = true; } break;
